@@ -65,7 +65,7 @@ SRC_TYPED = (
 ELEMS_TYPED = [1, 1.0, True, False, 0]  # equal and equally hashed for Python (1 == 1.0 == True, 0 == False), distinct calls for memento
 
 
-def _run(n, e0, e1, e2, e3, pre, raise_first, prefix, api, store, ELEMS=ELEMS, SRC=SRC, failing=3, purge=0, one_shot=False):
+def _run(n, e0, e1, e2, e3, pre, raise_first, prefix, api, store, ELEMS=ELEMS, SRC=SRC, failing=3, purge=0, one_shot=False, ctx=False):
     n = pick(n, 5) if not isinstance(n, int) else n
     es = [pick(e, len(ELEMS)) for e in [e0, e1, e2, e3][:n]]
     xs = [ELEMS[e] for e in es]
@@ -92,6 +92,13 @@ def _run(n, e0, e1, e2, e3, pre, raise_first, prefix, api, store, ELEMS=ELEMS, S
             try:
                 prog.exec(SRC)
                 f = prog.f
+                if ctx:
+                    # the whole scenario under context arguments: elements memoized WITHOUT context beforehand are other calls
+                    cover("under-context-arguments")
+                    for x in ELEMS[:2]:
+                        _outcome(lambda: f(5, x))
+                    prog.trace.clear()
+                    f = f.with_context_args({"c": 1})
                 pre_xs = [x for i, x in enumerate(ELEMS) if pre & (1 << i)]
                 for x in pre_xs:
                     _outcome(lambda: f(5, x))
@@ -157,17 +164,18 @@ def _run(n, e0, e1, e2, e3, pre, raise_first, prefix, api, store, ELEMS=ELEMS, S
 
 @obligation(
     "C15.batch",
-    covers=("duplicates", "failing-element", "empty-batch", "some-memoized-before"),
-    split={"api": ["call_batch", "map_over_range"], "store": ["memory", "fs+cache:1"], "n": [0, 1, 2, 3]},
+    covers=("duplicates", "failing-element", "empty-batch", "some-memoized-before", "under-context-arguments"),
+    split={"api": ["call_batch", "map_over_range"], "store": ["memory", "fs+cache:1"], "n": [0, 1, 2, 3], "ctx": [False, True]},
     bounds="batches of length 0..3 over elements {1, 2, failing 3} (so duplicates occur) x every subset memoized beforehand (8) x "
-           "raise_first_exception x partial prefix x {call_batch, map_over_range} x {memory, fs+cache}; oracle = the same elements "
+           "raise_first_exception x partial prefix x {call_batch, map_over_range} x {memory, fs+cache} x {plain, the function carrying "
+           "context arguments while the same elements are also memoized without context}; oracle = the same elements "
            "evaluated one by one from an identically prepared store",
-    variables="choice: elements, pre-memoized subset, raise_first, prefix",
+    variables="choice: elements, pre-memoized subset, raise_first, prefix, context bit",
     budget_s={"quick": 170, "thorough": 900},
     choice_vars=7,
 )
-def batch(e0: int, e1: int, e2: int, e3: int, pre: int, raise_first: bool, prefix: bool, api: str, store: str, n: int):
-    _run(n, e0, e1, e2, e3, pre, raise_first, prefix, api, store)
+def batch(e0: int, e1: int, e2: int, e3: int, pre: int, raise_first: bool, prefix: bool, api: str, store: str, n: int, ctx: bool = False):
+    _run(n, e0, e1, e2, e3, pre, raise_first, prefix, api, store, ctx=True if ctx else False)
 
 
 @obligation(
